@@ -65,7 +65,8 @@ ASSUMPTIONS = [
 ]
 REQUIRED = {"lines": 0.3, "polys": 0.15, "poly-convex": 0.05, "poly-star": 0.05, "poly-hist": 0.05,
             "seg-inside": 0.03, "seg-outside": 0.03, "seg-cut": 0.1, "seg-multi-piece": 0.01, "seg-boundary-part": 0.02,
-            "seg-point-contact": 0.02, "polyh-coplanar-sides": 0.05, "hanging>=2": 0.01, "pp-inside": 0.003, "pp-outside": 0.02, "pp-cut": 0.05, "pp-general-position": 0.05,
+            "seg-point-contact": 0.02, "polyh-coplanar-sides": 0.05, "hanging>=2": 0.01, "pp-plane-through-vertex": 0.01,
+            "pp-plane-contains-edge": 0.01, "pp-polyhedron-vertex-inside-polygon": 0.01, "pp-inside": 0.003, "pp-outside": 0.02, "pp-cut": 0.05, "pp-general-position": 0.05,
             "pp-contact": 0.03}
 
 _int3 = st.lists(st.integers(-3, 3), min_size=3, max_size=3)
@@ -114,13 +115,27 @@ _SMALL_AB = [
 def _planar_polygon(draw, pts, through=False):
     """Convex planar polygon in quadrupled coordinates (SC = 4): o4 + f (a u + b w), f in {1, 2, 4, 8}; the
     origin is a quarter-integer point near the polyhedron (mean of four of its points plus an offset)."""
-    idx = draw(st.lists(st.integers(0, len(pts) - 1), min_size=4, max_size=4))
-    off = draw(st.lists(st.sampled_from([0, 0, 0, -1, 1, -2, 2] if through else [0, 0, 0, -1, 1, -2, 2, -4, 4, -10, 10]),
-                        min_size=3, max_size=3))
-    o2 = [sum(pts[i][k] for i in idx) + off[k] for k in range(3)]
+    anchored = draw(st.integers(0, 4)) == 0
     small = st.integers(-1, 1) if draw(st.booleans()) else st.integers(-2, 2)
     u = draw(st.lists(small, min_size=3, max_size=3))
     w = draw(st.lists(small, min_size=3, max_size=3))
+    if anchored:
+        # the plane passes through a point of the polyhedron (usually a vertex) and, half of the time, contains the line
+        # to another one (a polyhedron edge, a face diagonal = possible cut between coplanar sides, or a space diagonal)
+        i = draw(st.integers(0, len(pts) - 1))
+        o2 = [SC * pts[i][k] for k in range(3)]
+        if draw(st.booleans()):
+            j = draw(st.integers(0, len(pts) - 1))
+            d = [pts[j][k] - pts[i][k] for k in range(3)]
+            if any(d):
+                u = list(ep.primitive(d))
+        sh = draw(st.lists(st.sampled_from([0, 0, 0, 0, 1, -1, 2]), min_size=2, max_size=2))
+    else:
+        idx = draw(st.lists(st.integers(0, len(pts) - 1), min_size=4, max_size=4))
+        off = draw(st.lists(st.sampled_from([0, 0, 0, -1, 1, -2, 2] if through else [0, 0, 0, -1, 1, -2, 2, -4, 4, -10, 10]),
+                            min_size=3, max_size=3))
+        o2 = [sum(pts[i][k] for i in idx) + off[k] for k in range(3)]
+        sh = [0, 0]
     if not any(u):
         u[draw(st.integers(0, 2))] = 1
     if not any(ep.cross3(u, w)):
@@ -138,7 +153,8 @@ def _planar_polygon(draw, pts, through=False):
     else:
         ab = draw(polys.polygon(kinds=("convex",), max_extra=3, allow_hang=False))["v"]
         f = draw(st.sampled_from([1, 1, 2, 2, 4, 4, 8]))
-    verts = [[o2[k] + f * (a * u[k] + b * w[k]) for k in range(3)] for a, b in ab]
+    # `sh` shifts the polygon inside its own plane (anchored case: the anchor point stays in the plane)
+    verts = [[o2[k] + f * (a * u[k] + b * w[k]) + sh[0] * u[k] + sh[1] * w[k] for k in range(3)] for a, b in ab]
     if draw(st.booleans()):
         verts = verts[::-1]
     return verts
@@ -157,9 +173,11 @@ def _spec(draw):
                 "rows3": draw(st.booleans()), "perm": list(draw(st.permutations(list(range(2 * ns)))))}
     split = draw(st.one_of(st.just(0), st.integers(1, 2 ** 24 - 1)))
     H = draw(polys.polyhedron_points(max_extra=4 if not split else 2, prefer_box=bool(split)))
-    through = bool(split) and draw(st.booleans())
-    return {"fn": fn, "pts": H["pts"],
-            "polygons": draw(st.lists(_planar_polygon(H["pts"], through), min_size=1, max_size=2)),
+    npoly = draw(st.sampled_from([1, 2, 2]))
+    # "through" (a large polygon covering the cross-section) is drawn per polygon, so that lists mix polygons whose own
+    # edges cross the boundary with polygons that cover the whole cross-section, in both orders
+    polygons = [draw(_planar_polygon(H["pts"], draw(st.integers(0, 5)) < (3 if split else 1))) for _ in range(npoly)]
+    return {"fn": fn, "pts": H["pts"], "polygons": polygons,
             "mask": draw(st.integers(0, 2 ** 20 - 1)), "as_array": draw(st.booleans()),
             "split": split, "shuffle": draw(st.integers(0, 10 ** 6))}
 
@@ -228,9 +246,9 @@ def _known_single_vertex_touch(s):
 def _polys_with(s, wanted):
     if s.get("fn") != "polys":
         return False
-    facets, _ = _facets2(s)
+    facets, _, cuts = _sides(s)
     for vs in s["polygons"]:
-        _, lab, contact, _ = _poly_class(facets, [tuple(v) for v in vs])
+        _, lab, contact, _ = _poly_class(facets, [tuple(v) for v in vs], cuts)
         if lab != "pp-coplanar" and any(c in wanted for c in contact):
             return True
     return False
@@ -238,7 +256,9 @@ def _polys_with(s, wanted):
 
 def _known_edge_meets_edge(s):
     """polygons_by_polyhedron: the boundary of the polygon meets the relative interior of a polyhedron edge, or a
-    polyhedron vertex, in a single point: a polygon edge crosses a polyhedron edge, a polygon edge passes through a
+    polyhedron vertex, in a single point ("polyhedron edge" = an edge of the sides handed over, i.e. a hull edge or
+    the common edge of two coplanar neighbouring sides; the latter behaves exactly like a hull edge: the contact point is
+    reported by both sides that share it): a polygon edge crosses a polyhedron edge, a polygon edge passes through a
     polyhedron vertex, or a polygon vertex lies on a polyhedron edge (the limiting case of a crossing: moving that
     vertex to either side gives a passing case / an edge crossing).  In all three the contact point belongs to the
     two (or more) facets that share the edge."""
@@ -447,9 +467,10 @@ def _on_closed_segment(x, u, v):
     return not any(ep.cross3(ep.sub3(x, u), ep.sub3(v, u))) and ep.dot3(ep.sub3(x, u), ep.sub3(x, v)) <= 0
 
 
-def _contact_classes(facets, verts, nrm, cls):
+def _contact_classes(facets, verts, nrm, cls, cuts=()):
     """Exact contact classes of a planar polygon (vertices `verts`, normal `nrm`, vertex classification `cls`)
-    with the convex polyhedron given by `facets`; empty list = general position."""
+    with the convex polyhedron given by `facets`; empty list = general position.  "Polyhedron edge" means an edge of
+    the sides handed to porepy: the hull edges and the internal `cuts` between coplanar neighbouring sides."""
     out = []
     n = len(verts)
     k0 = sum(1 for c in cls if c == 0)
@@ -466,10 +487,21 @@ def _contact_classes(facets, verts, nrm, cls):
     hv = {v for f in facets for v in f["verts"] if ep.dot3(nrm, v) == ep.dot3(nrm, verts[0])}
     hedges = {tuple(sorted((f["verts"][k], f["verts"][(k + 1) % len(f["verts"])])))
               for f in facets for k in range(len(f["verts"]))}
+    hedges |= {tuple(sorted(c)) for c in cuts}
     if any(a in hv and b in hv for a, b in hedges):
         out.append("pp-plane-contains-edge")
     elif hv:
         out.append("pp-plane-through-vertex")
+    if hv:
+        # polyhedron vertices in the plane of the polygon, classified against the polygon itself
+        ax = max(range(3), key=lambda a: abs(nrm[a]))
+        keep = [a for a in range(3) if a != ax]
+        p2 = [(v[keep[0]], v[keep[1]]) for v in verts]
+        where = {ep.point_in_polygon(p2, (h[keep[0]], h[keep[1]])) for h in hv}
+        if 1 in where:
+            out.append("pp-polyhedron-vertex-inside-polygon")
+        if 0 in where:
+            out.append("pp-polyhedron-vertex-on-polygon-boundary")
     kinds = set()
     for i in range(n):
         p, q = verts[i], verts[(i + 1) % n]
@@ -492,7 +524,7 @@ def _contact_classes(facets, verts, nrm, cls):
     return out + sorted(kinds)
 
 
-def _poly_class(facets, verts):
+def _poly_class(facets, verts, cuts=()):
     """(Q, label) for a convex planar polygon (doubled integer coordinates) against the hull facets."""
     nrm = ep.cross3(ep.sub3(verts[1], verts[0]), ep.sub3(verts[2], verts[0]))
     k = 2
@@ -522,7 +554,7 @@ def _poly_class(facets, verts):
         lab = "pp-inside"
     else:
         lab = "pp-cut"
-    contact = _contact_classes(facets, verts, nrm, cls)
+    contact = _contact_classes(facets, verts, nrm, cls, cuts)
     return Q if has_area else [], lab, contact, area
 
 
@@ -558,7 +590,7 @@ def _check_polys(pp, s):
     for vs in s["polygons"]:
         if ep.affine_rank(vs) != 2:
             raise HarnessError(f"clipped polygon is not planar of rank 2: {vs}")
-        Q, lab, contact, area = _poly_class(facets, [tuple(v) for v in vs])
+        Q, lab, contact, area = _poly_class(facets, [tuple(v) for v in vs], cuts)
         labels.append(lab)
         labels += contact
         labels.append("pp-contact" if contact else "pp-general-position")
